@@ -1,0 +1,34 @@
+//go:build verif
+
+// Hooks for the verification harness under /verif (build tag `verif`): they expose, unchanged, pieces of internal
+// packages that the harness drives directly. Nothing here is compiled without the tag.
+package token
+
+import (
+	"io"
+
+	"github.com/ipfs/go-cid"
+
+	"github.com/ucan-wg/go-ucan/token/internal/envelope"
+)
+
+// VerifCIDStream is what envelope.CIDReader and envelope.CIDWriter offer beyond io.Reader / io.Writer.
+type VerifCIDStream interface {
+	CID() (cid.Cid, error)
+}
+
+// VerifCIDReader returns envelope.NewCIDReader(r).
+func VerifCIDReader(r io.Reader) interface {
+	io.Reader
+	VerifCIDStream
+} {
+	return envelope.NewCIDReader(r)
+}
+
+// VerifCIDWriter returns envelope.NewCIDWriter(w).
+func VerifCIDWriter(w io.Writer) interface {
+	io.Writer
+	VerifCIDStream
+} {
+	return envelope.NewCIDWriter(w)
+}
